@@ -171,20 +171,22 @@ theorem processDepositsForPool_coins (id : CoinID) (env : Env) (k : PoolKey) (s 
   split at h
   · cases h
   · cases h
-  · obtain ⟨coins, hc, h2⟩ := Outcome.bind_eq_ok h
-    cases h2
-    refine ⟨?_, rfl, rfl⟩
-    refine Outcome.foldlM'_inv_mem (fun c : CoinMap => c.getCoin id = s.coins.getCoin id) _ deps ?_
-      _ _ rfl hc
-    intro b tx b' htx hb hf
-    obtain ⟨v, _, hf⟩ := Outcome.bind_eq_ok hf
-    split at hf
-    · cases hf
-      rw [CoinMap.getCoin_insertCoin_ne _ _ _ (outCoinID_ne 0 (hne tx htx))]
-      exact hb
-    · rw [CoinMap.getCoin_removeCoin_ne hf (outCoinID_ne 1 (hne tx htx)),
-        CoinMap.getCoin_insertCoin_ne _ _ _ (outCoinID_ne 0 (hne tx htx))]
-      exact hb
+  · split at h
+    · cases h; exact CoinsSameAt.refl _ _
+    · obtain ⟨coins, hc, h2⟩ := Outcome.bind_eq_ok h
+      cases h2
+      refine ⟨?_, rfl, rfl⟩
+      refine Outcome.foldlM'_inv_mem (fun c : CoinMap => c.getCoin id = s.coins.getCoin id) _ deps ?_
+        _ _ rfl hc
+      intro b tx b' htx hb hf
+      obtain ⟨v, _, hf⟩ := Outcome.bind_eq_ok hf
+      split at hf
+      · cases hf
+        rw [CoinMap.getCoin_insertCoin_ne _ _ _ (outCoinID_ne 0 (hne tx htx))]
+        exact hb
+      · rw [CoinMap.getCoin_removeCoin_ne hf (outCoinID_ne 1 (hne tx htx)),
+          CoinMap.getCoin_insertCoin_ne _ _ _ (outCoinID_ne 0 (hne tx htx))]
+        exact hb
 
 theorem processWithdrawalsForPool_coins (id : CoinID) (k : PoolKey) (s : State) (reqs : List Tx)
     (s' : State) (h : processWithdrawalsForPool k s reqs = .ok s')
